@@ -367,8 +367,8 @@ void ScriptParser::SetOutputInfo(const OutputInfo* infoValue)
     info = infoValue;
 }
 
-ScriptEmitter::ScriptEmitter(IScriptManager& managerValue, StateScript& stateScriptValue, const OutputInfo* infoValue, size_t maxDepth)
-    : stateScript(&stateScriptValue)
+ScriptEmitter::ScriptEmitter(IScriptManager& managerValue, StateScript* stateScriptValue, const OutputInfo* infoValue, size_t maxDepth)
+    : stateScript(stateScriptValue)
     , manager(managerValue)
     , eventSystem(EventSystem::Get())
     , depth(maxDepth)
@@ -803,7 +803,7 @@ void ScriptEmitter::EmitCatch(sval_t val, const opval_t* try_begin_code_pos, sou
     ClearPrevOpcode();
 
     ScriptCountManager countManager;
-    ScriptEmitter emitter(countManager, *stateScript, info);
+    ScriptEmitter emitter(countManager, stateScript, info);
     emitter.EmitRoot(val);
 
     const sizeInfo_t& info = countManager.getSizeInfo();
@@ -1636,7 +1636,7 @@ void ScriptEmitter::EmitSwitch(sval_t val, sourceLocation_t sourceLoc)
     ++switchDepth;
 
     ScriptCountManager countManager;
-    ScriptEmitter emitter(countManager, *stateScript, info, 5);
+    ScriptEmitter emitter(countManager, stateScript, info, 5);
     emitter.canBreak = true;
     emitter.switchDepth = 1;
     emitter.EmitRoot(val);
@@ -2213,7 +2213,7 @@ void ScriptCompiler::EmitProgram(ProgramScript* script, sval_t rootNode, opval_t
     ScriptProgramManager manager(dict, script, progBuffer, progLength);
     // invoke the ScriptEmitter and use the program manager interface to write opcodes
     // and to create state scripts
-    ScriptEmitter emitter(manager, script->GetStateScript(), info);
+    ScriptEmitter emitter(manager, &script->GetStateScript(), info);
     emitter.EmitRoot(rootNode);
 
     m_iInternalMaxVarStackOffset = emitter.GetInternalMaxVarStackOffset();
@@ -2226,7 +2226,7 @@ size_t ScriptCompiler::Preallocate(ProgramScript* script, sval_t rootNode, opval
 
     // invoke the script emitter
     // and connect the interface for counting opcodes and stateScripts
-    ScriptEmitter emitter(manager, script->GetStateScript(), info);
+    ScriptEmitter emitter(manager, &script->GetStateScript(), info);
     emitter.EmitRoot(rootNode);
 
     MEM::PreAllocator& allocator = script->GetAllocator();
